@@ -408,12 +408,14 @@ impl World {
         Ok(w)
     }
 
-    /// dt = 0 stands for a sub-second block interval: the height advances, the clock by 300 ms only, so consecutive
+    /// dt = 0 stands for a sub-second block interval: the height advances, the clock by 150-900 ms only, so consecutive
     /// blocks can share the same whole second
     pub fn advance(&mut self, dh: u64, dt: u64) {
         self.app.update_block(|b| {
             b.height += dh;
-            b.time = if dt == 0 { b.time.plus_nanos(300_000_000) } else { b.time.plus_seconds(dt) };
+            // dt == 0: a sub-second block interval (block time still strictly increases); the fraction varies with the
+            // height so that consecutive blocks carry different sub-second parts
+            b.time = if dt == 0 { b.time.plus_nanos([300u64, 700, 150, 450, 900][(b.height % 5) as usize] * 1_000_000) } else { b.time.plus_seconds(dt) };
         });
     }
 
